@@ -275,6 +275,7 @@ CHECKS["C15"] = {
     "parts": [
         {"part": "dual", "pkg": "./dual/", "test": "TestVerif_C15_Dual", "quick": 3600, "thorough": 20000},
         {"part": "findpeer-merge", "pkg": "./dual/", "test": "TestVerif_C15_FindPeerMerge", "quick": 1200, "thorough": 12000},
+        {"part": "server-self", "pkg": "./dual/", "test": "TestVerif_C15_ServerSelf", "quick": 600, "thorough": 5000},
     ],
 }
 
